@@ -1,6 +1,6 @@
 P = {
-    "level_text": "Theorems (kernel-checked, all shapes / stored lists / updates / histories, no size bound). REFINEMENT: on every input the SPEC decides (stored data and update with complete, pairwise distinct identifiers, or one identifier-less item, or a selector matching at most one item; delete filter with selector and/or elements naming no identifier; all seven filter shapes) the update engine succeeds and its result, read as a map identifier -> item, equals Spec.KV.apply (delete first, then overlay by identifier / over all / over the selected item); one item per identifier; the same along any history through the per-type wrapper (stored data = fold of the rules). ORDER: with numeric identifiers of 1, 2 or 3 key fields ordered data stays ordered and the merge path orders, where ordered = the identifier tuples increase strictly in lexicographic order; SortData's comparator is proved a strict weak order, total on identifiers. IDEMPOTENCE: idempotentRegion is the exact decidable side condition (second application decided, the rules give the same data at every identifier involved); inside it updateList (updateList st u) u = updateList st u as LISTS for numeric identifiers and all seven filter shapes (c02_idempotent), as lists for selector updates with any identifiers, as maps for every shape; outside it a kernel-checked witness shows the rules themselves are not idempotent (delete selector testing a field the partial part changes). IDENTITY: hashKey builds a string from the identifier parts; a character-level model of that string (Spine/HashKey.lean) proves it injective on complete identifiers for every kind of identifier that occurs in the regenerated table (1-3 numeric parts for all values incl. the largest uint; number + string for all strings incl. empty ones and ones containing the separator; device / entity / feature addresses for all device strings, up to an absent vs empty device part), proves that the abstract hash used by all other theorems identifies exactly what the string identifies (numeric identifiers, complete or not: the present prefix), and gives kernel-checked collisions for incomplete identifiers, the degenerate address, and a kind of identifier (string part before another part) that the table is decided not to contain; SortData is proved, for ALL lists, to return a permutation in which no item is less than its left neighbour and to be idempotent, with a witness that with missing identifier parts the comparator is no weak order. SEVERAL MATCHES: a partial update with a selector changes the first matching item only, everything else is as before; a delete selector removes every matching item and keeps every other. FAMILY: every member of the engine family (defect flags of C04/C05 sites: the pinned commit = all on, the repaired HEAD = cfg 0 0 0 0 0 / selfacts 1, any mixture) computes exactly updateList on every input the SPEC decides (c02_every_member_on_decided), so all of the above are theorems about the member the check runs against HEAD; the repaired SelectorMatch (nil check + reflect.DeepEqual) is proved total and to decide equality for every selector field class of every list type, struct-typed fields included. TABLES regenerated from the tree on every run: every list type implementing model.Updater has a shape the theorems apply to; every UpdateList method outside the generated list wiringFailing (empty on HEAD) reads, passes and assigns one list field, persists only under success && persist and returns the data; wiringFailing is proved exact. Refuted by kernel-checked witness: order after a full update (stored as received; known finding, open on HEAD). The model is tied to the code by a differential run against the real per-type UpdateList of every list type with struct items (86), spine.FunctionData, FeatureLocal.UpdateData and reply/notify datagrams, with the family member and the selector encoding probed on the tree under test; the SPEC is monitored on the implementation's own results.",
-    "level_note": "Trusted: Lean kernel; hand-written model Spine/Update.lean + Spine/Store.lean (as written = pinned commit) and the family Spine/UpdateF.lean (validated by the correspondence run incl. panics and in-place effects, on the pinned, the intermediate and the repaired trees); the translator's reflection / go/ast extraction (G3, G4) and the harness codec. The Go SPEC monitor is an independent twin of Spine/SpecKV.lean and is compared with it on every local case; beyond the twin it judges selectors matching several items by the first-match reading proved in c02_selector_first_match. The string model of hashKey is tied to the code by identity probes on the real UpdateList (every proved / refuted pair replayed) and by running the whole correspondence with adversarial concrete identifier values (separators, empty strings, max uint, address punctuation inside device strings). Not proved, monitored only: inputs the SPEC does not decide other than several matches (duplicate / missing identifiers in an update, elements naming identifiers, the identifier-less NodeManagementDestinationListData, scalar-item SpecificationVersionListData - not driven); list-level idempotence on the sorting paths for the six list types with non-numeric identifier parts (map-level is proved). String/struct identifiers are modelled as injectively hashed (no '|' in key strings). Remote writes belong to C04, panics to C05, sharing of backing arrays to C11.",
+    "level_text": "Theorems (kernel-checked, all shapes / stored lists / updates / histories, no size bound). REFINEMENT: on every input the SPEC decides (stored data and update with complete, pairwise distinct identifiers, or one identifier-less item, or a selector matching at most one item; delete filter with selector and/or elements naming no identifier; all seven filter shapes) the update engine succeeds and its result, read as a map identifier -> item, equals Spec.KV.apply (delete first, then overlay by identifier / over all / over the selected item); one item per identifier; the same along any history through the per-type wrapper (stored data = fold of the rules). ORDER: with numeric identifiers of 1, 2 or 3 key fields ordered data stays ordered and the merge path orders, where ordered = the identifier tuples increase strictly in lexicographic order; SortData's comparator is proved a strict weak order, total on identifiers. IDEMPOTENCE: idempotentRegion is the exact decidable side condition (second application decided, the rules give the same data at every identifier involved); inside it updateList (updateList st u) u = updateList st u as LISTS for numeric identifiers and all seven filter shapes (c02_idempotent), as lists for selector updates with any identifiers, as maps for every shape; outside it a kernel-checked witness shows the rules themselves are not idempotent (delete selector testing a field the partial part changes). IDENTITY: hashKey builds a string from the identifier parts; a character-level model of that string (Spine/HashKey.lean) proves it injective on complete identifiers for every kind of identifier that occurs in the regenerated table (1-3 numeric parts for all values incl. the largest uint; number + string for all strings incl. empty ones and ones containing the separator; device / entity / feature addresses for all device strings, up to an absent vs empty device part), proves that the abstract hash used by all other theorems identifies exactly what the string identifies (numeric identifiers, complete or not: the present prefix), and gives kernel-checked collisions for incomplete identifiers, the degenerate address, and a kind of identifier (string part before another part) that the table is decided not to contain; SortData is proved, for ALL lists, to return a permutation in which no item is less than its left neighbour and to be idempotent, with a witness that with missing identifier parts the comparator is no weak order. SEVERAL MATCHES: a partial update with a selector changes the first matching item only, everything else is as before; a delete selector removes every matching item and keeps every other. FAMILY: every member of the engine family (defect flags of C04/C05 sites: the pinned commit = all on, the repaired HEAD = cfg 0 0 0 0 0 / selfacts 1, any mixture) computes exactly updateList on every input the SPEC decides (c02_every_member_on_decided), so all of the above are theorems about the member the check runs against HEAD; the repaired SelectorMatch (nil check + reflect.DeepEqual) is proved total and to decide equality for every selector field class of every list type, struct-typed fields included. ENTRY PATHS ('received as reply or notify from a peer or applied through the local API'): over a table regenerated on every run from the SSA form of the tree under test (go/updpaths) - every way FeatureLocal.HandleMessage and NodeManagement.HandleMessage (per command classifier), FeatureLocal.SetData / UpdateData / ApproveOrDenyWrite and FeatureRemote.UpdateData reach FunctionDataInterface.UpdateDataAny - reply, notify and the local API hand remoteWrite = false, persist = true and the unchanged filters to the store, a write remoteWrite = true; one call site per path; no call site of UpdateDataAny in the module lies outside these paths; FunctionData hands its five arguments on, in order, once, down to model.Updater.UpdateList (c02_entry_paths, c02_entry_paths_cover, c02_store_hands_arguments_on); hence a history whose updates arrive through ANY mixture of reply, notify, UpdateData, SetData is folded by the one engine call of c02_history (c02_history_any_entry_path). TABLES regenerated from the tree on every run: every list type implementing model.Updater has a shape the theorems apply to; every UpdateList method outside the generated list wiringFailing (empty on HEAD) reads, passes and assigns one list field, persists only under success && persist and returns the data; wiringFailing is proved exact. Refuted by kernel-checked witness: order after a full update (stored as received; known finding, open on HEAD). The model is tied to the code by a differential run against the real per-type UpdateList of every list type with struct items (86), spine.FunctionData, FeatureLocal.UpdateData and reply/notify datagrams, with the family member and the selector encoding probed on the tree under test; the SPEC is monitored on the implementation's own results.",
+    "level_note": "AUDIT (statement sentence by sentence -> theorems -> strength before/after -> tie): design/audit-C02.md. Trusted: Lean kernel; hand-written model Spine/Update.lean + Spine/Store.lean (as written = pinned commit) and the family Spine/UpdateF.lean (validated by the correspondence run incl. panics and in-place effects, on the pinned, the intermediate and the repaired trees); the translator's reflection / go/ast extraction (G3, G4), the SSA walker go/updpaths (constant propagation through helpers and interface calls; its limits - dispatch tables, flags travelling through struct fields - are listed in design/audit-C02.md and make it alarm, never pass silently) and the harness codec. The Go SPEC monitor is an independent twin of Spine/SpecKV.lean and is compared with it on every local case; beyond the twin it judges selectors matching several items by the first-match reading proved in c02_selector_first_match. The string model of hashKey is tied to the code by identity probes on the real UpdateList (every proved / refuted pair replayed) and by running the whole correspondence with adversarial concrete identifier values (separators, empty strings, max uint, address punctuation inside device strings). Not proved, monitored only: inputs the SPEC does not decide other than several matches (duplicate / missing identifiers in an update, elements naming identifiers, the identifier-less NodeManagementDestinationListData, scalar-item SpecificationVersionListData - not driven); list-level idempotence on the sorting paths for the six list types with non-numeric identifier parts (map-level is proved). String/struct identifiers are modelled as injectively hashed (no '|' in key strings). Remote writes belong to C04, panics to C05, sharing of backing arrays to C11.",
     "props_modules": [
         "Spine.Props.C02"
     ],
@@ -21,7 +21,8 @@ P = {
         "Spine.StoreF",
         "Spine.C02Idem",
         "Spine.HashKey",
-        "Spine.SortGen"
+        "Spine.SortGen",
+        "Spine.C02Paths"
     ],
     "drivers": [
         "drv_upd"
@@ -33,16 +34,19 @@ P = {
     ],
     "generated": [
         "shapes",
-        "wiring"
+        "wiring",
+        "updpaths"
     ],
     "generated_files": [
         "Shapes.lean",
-        "Wiring.lean"
+        "Wiring.lean",
+        "UpdPaths.lean"
     ],
     "trusted_base": [
         "model Spine.updateList / updateStore / updateData written by hand from model/update.go, model/collection_operations.go, spine/function_data.go; items abstracted to List (Option Nat) with one Shape per list type (G3)",
         "translator generators shapes (reflection over model.CmdType / model.FilterType with the repo's own EEBusTags) and wiring (go/ast over model/*.go); the harness uses the same extraction (go/h/updshape.go) and the correspondence run exercises every row",
         "selector fields are classified by type facts of the data model (G3: ignored / scalar / othertype / nonptr / struct / structnc) and encoded for the model by Spine.Tables.selMapFor from two facts PROBED on the tree under test (selected item field nil: panic or no match; struct values compared deeply or with !=); the harness checks before generating that the real SelectorMatch behaves for every selector field of every list type as its class says (same value / other value / nil), and that its own copy of the encoding equals the driver's",
+        "go/updpaths (own Go module, golang.org/x/tools v0.29.0 go/packages + go/ssa): entry points found by exported name (SetData, UpdateData, HandleMessage, ApproveOrDenyWrite), everything below them by call structure; interface calls resolved to every non-generic type of the module implementing the interface; the classifier of a path = the CmdClassifierType constant whose comparison guards the call; run by the translator generator `updpaths`",
         "string and struct identifiers modelled as injectively hashed values (the code's 'a|b' concatenation is not injective if a key string contains '|' or is empty; no enum key of the data model does)"
     ],
     "assumptions": [
